@@ -144,7 +144,9 @@ func (a *Analyzer) AnalyzeDirectory(dir string) (*Context, error) {
 	// Check for various project indicators
 	files, err := os.ReadDir(dir)
 	if err != nil {
-		return ctx, nil // Return what we have, don't fail
+		// Return what we have, don't fail; nothing was recognised, so this is a generic directory
+		a.finalizeContext(ctx)
+		return ctx, nil
 	}
 
 	// Process each file to detect project types
